@@ -245,6 +245,12 @@ func c16(r *engine.Report, p *engine.Program) {
 		okB, whyB := brokerLossless(p)
 		r.Check("R2-transport", "utils.Broker: every published message is delivered to every subscriber (blocking hand-over, unbuffered subscriptions)", token.NoPos, okB,
 			"the per-subscriber send in Broker.start is a blocking select with the broker context as its only other arm; Subscribe makes unbuffered channels", whyB)
+		{
+			okS, whyS, nS := packetPathStateless(p)
+			r.Check("R2-transport", "packet path: keeps no state between packets", token.NoPos, okS,
+				fmt.Sprintf("%d functions on the datagram path (send, decode, dispatch, forward, notices) write no Netceptor field and no package-level variable", nS),
+				whyS+" — whether a packet is delivered, forwarded or answered with a notice now depends on earlier packets")
+		}
 		okA, whyA := noticeAlwaysSent(p, su)
 		r.Check("R2-transport", "sendUnreachable: every notice is transmitted", su.Pos(), okA, "assuming the encoding succeeded, no return of sendUnreachable is reachable without sendMessage", whyA)
 		r.Check("R2-transport", "sendUnreachable: from/to service 'unreach', to the given node", su.Pos(), ok, "notices use the reserved service on both ends", "notices are not sent from/to the reserved 'unreach' service of the target node")
